@@ -93,6 +93,13 @@ def config(cfg):
         base = CONFIGS[cfg[:-5]]
         return dict(args=base["args"] + ["-DCMAKE_C_COMPILER=clang"],
                     cflags=(base.get("cflags", "") + " " + _ASAN_FLAGS).strip(), cc="clang")
+    m = re.match(r"^fp(\d+)(q?)(-asan)?$", cfg)
+    if m:
+        # generic field-size variant of the pinned configuration ("sweep" builds): fp315, fp638, fp381q (FP_QNRES=on) ...
+        args = ["-DFP_PRIME=" + m.group(1)] + (["-DFP_QNRES=on"] if m.group(2) else [])
+        if m.group(3):
+            return dict(args=args + ["-DCMAKE_C_COMPILER=clang"], cflags=_ASAN_FLAGS, cc="clang")
+        return dict(args=args)
     raise InfraError("unknown configuration " + cfg)
 
 
@@ -189,7 +196,7 @@ def build_relic(cfg, extra_args=None, tag=None):
 def cc_harness(cfg, name, sources, bdir=None, extra=None, wraps=None, objs_first=None):
     """Compile a harness program against the configuration's static library."""
     bdir = bdir or build_relic(cfg)
-    c = config(cfg) if (cfg in CONFIGS or cfg.endswith("-asan")) else {}
+    c = config(cfg) if (cfg in CONFIGS or cfg.endswith("-asan") or re.match(r"^fp\d+q?$", cfg)) else {}
     cc = c.get("cc", "gcc")
     exe = os.path.join(bdir, "h_" + name)
     srcs = [s if os.path.isabs(s) else os.path.join(HARNESS, s) for s in sources]
